@@ -96,6 +96,14 @@ func c05Format(w *rt.W, id uu.ID, slow bool) {
 				fail("format-verb", "Sprintf "+verb, s, wantV)
 			}
 		}
+		for _, vb := range []struct {
+			verb rune
+			want string
+		}{{'s', want}, {'v', want}, {'u', wantURN}, {'x', want}} {
+			if s := formatVia(id, vb.verb); s != vb.want {
+				fail("format-verb", "Format(%"+string(vb.verb)+") through a plain fmt.State", s, vb.want)
+			}
+		}
 		for _, verb := range wideVerbs {
 			if s := fmt.Sprintf(verb, id); s != want {
 				fail("format-verb", "Sprintf "+verb, s, want)
